@@ -36,6 +36,9 @@ pub struct EventWorld<M: RawMutex + 'static> {
     realism: u64,
     weights: [u32; NW],
     next_id: usize,
+    /// a burst of New / Poll pairs at the start of the run (many simultaneous waiters: batch loops)
+    burst_left: u64,
+    burst_poll: Option<usize>,
 }
 
 impl<M: RawMutex + 'static> EventWorld<M> {
@@ -104,6 +107,8 @@ impl<M: RawMutex + 'static> World for EventWorld<M> {
             realism: cfg_get(cfg, "realism", 50) as u64,
             weights,
             next_id: 0,
+            burst_left: cfg_get(cfg, "burst", 0).max(0) as u64,
+            burst_poll: None,
         }
     }
 
@@ -114,6 +119,16 @@ impl<M: RawMutex + 'static> World for EventWorld<M> {
                 return if self.prim_alive { Some(Op::new(OP_DROP_PRIM, 0, 0, 0)) } else { None };
             }
             return Some(Op::new(OP_DROP, *rng.pick(live) as u32, 0, 0));
+        }
+        if (self.burst_left > 0 || self.burst_poll.is_some()) && self.next_id < MAX_IDS - 1 {
+            if let Some(id) = self.burst_poll.take() {
+                return Some(Op::new(OP_POLL, id as u32, 0, 0));
+            }
+            self.burst_left -= 1;
+            self.next_id += 1;
+            let id = self.next_id - 1;
+            self.burst_poll = Some(id);
+            return Some(Op::new(OP_NEW, id as u32, 0, 0));
         }
         let pollable: Vec<usize> = live.iter().copied().filter(|id| matches!(env.slots[*id].st, St::Fresh | St::Pending)).collect();
         let done: Vec<usize> = live.iter().copied().filter(|id| env.slots[*id].st == St::Done).collect();
@@ -268,6 +283,11 @@ fn draw_cfg(rng: &mut Rng) -> Cfg {
         let f = *rng.pick(&[0u32, 1, 1, 1, 2, 3]);
         c.insert(WK[i].into(), (*b * f) as i64);
     }
+    // rarely: more than 32 simultaneous waiters (typical size of a waker batch)
+    let burst = if rng.pct(4) { *rng.pick(&[33i64, 34, 40]) } else { 0 };
+    c.insert("burst".into(), burst);
+    let len0 = cfg_get(&c, "len", 32);
+    c.insert("len".into(), len0 + 2 * burst);
     c.insert("w0".into(), cfg_get(&c, "w0", 140).max(70));
     c.insert("w1".into(), cfg_get(&c, "w1", 300).max(150));
     c
